@@ -180,9 +180,9 @@ pub fn run(args: Args) -> ! {
         rep.finish();
     }
     let tag = if po { "preserve_order" } else { "sorted" };
-    let run = run_tape(&format!("C17.values.{tag}"), &prop_value, 2500, args.tier.pick(60_000, 1_500_000), args.seed, workers());
+    let run = run_tape(&format!("C17.values.{tag}"), &prop_value, 2500, args.tier.pick(200_000, 3_000_000), args.seed, workers());
     finish_run(&mut rep, &format!("values.{tag}"), run);
-    let run = run_tape(&format!("C17.typed.{tag}"), &prop_typed, 1500, args.tier.pick(20_000, 500_000), args.seed, workers());
+    let run = run_tape(&format!("C17.typed.{tag}"), &prop_typed, 1500, args.tier.pick(80_000, 1_000_000), args.seed, workers());
     finish_run(&mut rep, &format!("typed.{tag}"), run);
     if std::env::var("VCHECK_PO_CHILD").is_ok() {
         println!("PO-RESULT evaluations={} nontrivial={} violations={}", rep.stats.evaluations, rep.stats.nontrivial.len(), rep.violations.len());
